@@ -187,7 +187,7 @@ func spec_sameCalls(a, b []spec_Call) bool {
 //@   ensures old(c.pkg) == nil ==> result == nil && eq(spec_calls(), old(spec_calls()))
 //@   ensures old(c.pkg) != nil && result == nil ==> spec_sameCalls(spec_calls()[len(old(spec_calls())):], spec_dispatchLog(old(c.universe), old(c.args.Globals), old(c.pkgTags), g, old(c.pkg.Types()), spec_sortedKeys(old(c.pkg.Types())), len(old(c.pkg.Types()))))
 //@   ensures result != nil ==> len(spec_calls()) > len(old(spec_calls())) && spec_lastCall().Err == result && !spec_swallowed(result)
-//@   ensures old(c.pkg) != nil && result != nil ==> exists m int :: 1 <= m && m <= len(old(c.pkg.Types())) && spec_sameCalls(spec_calls()[len(old(spec_calls())):], spec_dispatchLog(old(c.universe), old(c.args.Globals), old(c.pkgTags), g, old(c.pkg.Types()), spec_sortedKeys(old(c.pkg.Types())), m))
+//@   ensures old(c.pkg) != nil && result != nil ==> exists m int [it2+1] :: 1 <= m && m <= len(old(c.pkg.Types())) && spec_sameCalls(spec_calls()[len(old(spec_calls())):], spec_dispatchLog(old(c.universe), old(c.args.Globals), old(c.pkgTags), g, old(c.pkg.Types()), spec_sortedKeys(old(c.pkg.Types())), m))
 //@   loop 1 invariant eq(names, ks1[:it1])
 //@   loop 2 invariant c.pkg != nil && c.l != nil && c.universe == old(c.universe) && c.args != nil && eq(c.args.Globals, old(c.args.Globals)) && eq(c.pkgTags, old(c.pkgTags)) && eq(pkgTypes, old(c.pkg.Types())) && eq(spec_fx(), old(spec_fx()))
 //@   loop 2 invariant len(spec_calls()) >= len(old(spec_calls())) && eq(spec_calls()[:len(old(spec_calls()))], old(spec_calls()))
